@@ -178,6 +178,8 @@ func c19Run(o *vh.Out, inAny any) {
 	loadStatus := int64(0)
 	var tagsRead []int64
 	var raws, raws2 []string
+	var reread []ot.Table // what a client gets back: every directory tag with its RawTable bytes
+	rereadOK := true
 	var reuse []byte // buffer handed to RawTableTo and reused from table to table
 	if panicked == nil {
 		func() {
@@ -198,7 +200,9 @@ func c19Run(o *vh.Out, inAny any) {
 				if err != nil {
 					st = 1
 					b = nil
+					rereadOK = false
 				}
+				reread = append(reread, ot.Table{Tag: tg, Content: append([]byte(nil), b...)})
 				raws = append(raws, vh.Tuple(vh.Z(st), vh.BytesLit(b)))
 				// the same table through RawTableTo with the buffer of the previous table
 				b2, err2 := ld.RawTableTo(tg, reuse)
@@ -228,7 +232,31 @@ func c19Run(o *vh.Out, inAny any) {
 	}
 	if panicked != nil {
 		o.Fail(idx, "panic", fmt.Sprint(panicked))
+	} else if loadStatus == 0 && rereadOK && c19StrictlySorted(in.Tables) {
+		// theorem rewrite_is_byte_identical on the implementation: writing what was read back (every directory
+		// tag with its RawTable bytes) reproduces the file; hypotheses = strictly increasing tags, all reads succeeded
+		var out2 []byte
+		var p2 any
+		func() {
+			defer func() { p2 = recover() }()
+			out2 = ot.WriteTTF(reread)
+		}()
+		o.Count("rewrite_checked")
+		if p2 != nil {
+			o.Fail(idx, "rewrite-panic", fmt.Sprint(p2))
+		} else if !bytes.Equal(out, out2) {
+			o.Fail(idx, "rewrite-differs", fmt.Sprintf("WriteTTF(tables read back) differs from the file read: %d vs %d bytes", len(out2), len(out)))
+		}
 	}
+}
+
+func c19StrictlySorted(ts []c19Table) bool {
+	for i := 1; i < len(ts); i++ {
+		if ts[i-1].Tag >= ts[i].Tag {
+			return false
+		}
+	}
+	return true
 }
 
 func bucket(n int) int {
